@@ -52,6 +52,9 @@ def gen_sources(outdir, Ls):
     d.append('  if (cmd == "forcingflat") { auto L = t.nat(); auto ncell = t.nat(); auto ns = t.nat(); switch (L) {')
     for L in Ls: d.append(f"    case {L}: return DenseCfg<{L}>::forcingflat(t, ncell, ns);")
     d.append('    default: return "no-cfg"; } }')
+    d.append('  if (cmd == "norm") { auto L = t.nat(); auto ncell = t.nat(); auto ns = t.nat(); switch (L) {')
+    for L in Ls: d.append(f"    case {L}: return DenseCfg<{L}>::norm(t, ncell, ns);")
+    d.append('    default: return "no-cfg"; } }')
     d.append('  if (cmd == "rates") { auto L = t.nat(); auto ncell = t.nat(); auto np = t.nat(); switch (L) {')
     for L in Ls: d.append(f"    case {L}: return DenseCfg<{L}>::rates(t, ncell, np);")
     d.append('    default: return "no-cfg"; } }')
